@@ -191,11 +191,6 @@ func allOps() []Op {
 	vec(0x5e, "f32x4.demote_f64x2_zero", "v", 'v', 0, "simdf", "vf64")
 	vec(0x5f, "f64x2.promote_low_f32x4", "v", 'v', 0, "simdf", "vf32")
 	// per-shape unary / binary integer families
-	type fam struct {
-		base  int
-		shape string
-		pfx   string
-	}
 	vec(0x60, "i8x16.abs", "v", 'v', 0, "simd", "v8")
 	vec(0x61, "i8x16.neg", "v", 'v', 0, "simd", "v8")
 	vec(0x62, "i8x16.popcnt", "v", 'v', 0, "simd", "v8")
